@@ -432,6 +432,31 @@ class Gen:
             b = {'t': 'new', 'k': {'c': 'Mul'}, 'args': {'l': [{'t': 'num', 'v': rat_json(self.q()) if rng.random() < 0.7 else 3},
                  self.leaf_pos()[0]]}, 'uk': None}
             tb = 'Q'
+        if o in ('add', 'sub') and rng.random() < 0.08:
+            # expr +/- (zero base) ** (exponent expression): the power is NOT trivially zero -- 0 ** 0 == 1 when the exponent evaluates to
+            # exactly 0 for the chosen variables (0 ** positive == 0 otherwise)
+            rat = self.mode == 'rat'
+            zero = {'t': 'new', 'k': {'c': 'Constant'}, 'args': {'l': [{'t': 'num', 'v': 0 if rat else 0.0}]}, 'uk': None}
+            if rng.random() < 0.3:
+                zero = {'t': 'op', 'o': 'mul', 'a': self.leaf_node()[0], 'b': zero}          # a zero-valued (trivially zero) product as base
+            kind = rng.random()
+            yv = self.var(rng.choice(['y', 'z']))
+            sym = {'t': 'new', 'k': {'c': 'Symbol'}, 'args': None, 'uk': [yv]}
+            if kind < 0.3:
+                expo = {'t': 'op', 'o': 'sub', 'a': sym, 'b': dict(sym)}                       # y - y == 0
+            elif kind < 0.6:                                                                   # polynomial with a root at the chosen x
+                xv = self.vars[self.var('x')]
+                neg = (rat_json(-(Fraction(*xv) if isinstance(xv, list) else Fraction(xv))) if rat else -xv)
+                expo = {'t': 'new', 'k': {'c': 'Poly', 'param': 'x', 'recip': False, 'shift': False},
+                        'args': {'l': [{'t': 'num', 'v': neg}, {'t': 'num', 'v': 1 if rat else 1.0}]}, 'uk': None}
+            elif kind < 0.75:
+                expo = {'t': 'new', 'k': {'c': 'Constant'}, 'args': {'l': [{'t': 'num', 'v': 0 if rat else 0.0}]}, 'uk': None}
+            else:
+                expo = {'t': 'new', 'k': {'c': 'Constant'}, 'args': {'l': [{'t': 'num', 'v': rng.choice([1, 2, 3]) if rat else rng.choice([0.5, 2.0, 1e-9])}]}, 'uk': None}
+            pw = {'t': 'op', 'o': 'pow', 'a': zero, 'b': expo}
+            if rng.random() < 0.7:
+                return {'t': 'op', 'o': o, 'a': a, 'b': pw}, ('A' if rat else 'F')
+            return {'t': 'op', 'o': o, 'a': pw, 'b': a}, ('A' if rat else 'F')
         if o == 'add' and rng.random() < 0.06:
             z0 = rng.random() < 0.5
             b = {'t': 'new', 'k': {'c': 'Mul'}, 'args': {'l': [{'t': 'num', 'v': (3 if self.mode == 'rat' else 3.0)},
